@@ -146,7 +146,7 @@ Record oracles := {
   t_mail_hook : list (str * hook_ans);        (* origin address -> before.mail_from_accepted *)
   t_rcpt_hook : list (str * hook_ans);        (* recipient address -> before.rcpt_to_accepted *)
   t_hdr : list (str * option hdrinfo);        (* un-stuffed block -> header facts *)
-  t_msg_hook : list (str * inbound) }.        (* un-stuffed block -> before.message_stored *)
+  t_msg_hook : list (str * overrides) }.      (* Subject -> what before.message_stored changes *)
 
 Definition hook_for (t : list (str * hook_ans)) (a : str) : hook_ans :=
   match assoc a t with Some h => h | None => NoAns end.
@@ -200,8 +200,8 @@ Definition classify (o : oracles) (line : str) : pline :=
   end.
 
 Definition block_item (o : oracles) (body : str) : item :=
-  B (PBlock body (match assoc body (t_hdr o) with Some h => h | None => None end)
-            (assoc body (t_msg_hook o))).
+  let hdr := match assoc body (t_hdr o) with Some h => h | None => None end in
+  B (PBlock body hdr (match hdr with Some h => assoc (h_subject h) (t_msg_hook o) | None => None end)).
 
 (** The next input item in state [s] from the remaining bytes [w], and what is left. *)
 Definition next_item (o : oracles) (s : session) (w : str) : item * str :=
